@@ -28,7 +28,8 @@ MANIFEST = {
     'technique': ('transaction typestate (clean/dirty/committed) by abstract interpretation '
                   'over exception-aware CFGs of every SQLDataStore method; query kind by '
                   'provenance; path counting of mutator calls per RPC'
-                  '; start-up closure of the constructor is write-free; private datastore helpers inlined into the transaction typestate'),
+                  '; start-up closure of the constructor is write-free; private datastore helpers inlined into the transaction typestate'
+                  '; closed keyword surface of create_engine (incl. **kwargs followed to their dict) and SQLite durability pragmas; wrapper must raise after rollback'),
     'level_text': (
         'Static: every SQLDataStore method wraps all its writes in exactly one transaction on '
         'every normal path and rolls back before every exceptional exit; every single-resource '
